@@ -1,0 +1,16 @@
+//go:build verif
+// +build verif
+
+package loglimiter
+
+import "time"
+
+// NewWithClock is New with an injected clock (verification harness only).
+func NewWithClock(interval time.Duration, now func() time.Time) *LogLimiter {
+	l := New(interval)
+	l.nowFunc = now
+	return l
+}
+
+// VerifSetClock replaces the limiter's clock.
+func (limiter *LogLimiter) VerifSetClock(now func() time.Time) { limiter.nowFunc = now }
